@@ -697,6 +697,13 @@ pub fn issue_op(c: &mut Commands, op: Op, cmd: CmdId, top: bool, rm: Option<&mut
             let e = with_ctx(|x| x.actors[a as usize].entity);
             c.queue(move |w: &mut World| { w.try_despawn(e); });
         }
+        Op::StripSys(a) =>
+        {
+            record(issued);
+            c.queue(marker(cmd));
+            let e = with_ctx(|x| x.actors[a as usize].entity);
+            c.queue(move |w: &mut World| { if let Ok(mut em) = w.get_entity_mut(e) { em.clear(); } });
+        }
         Op::Register(a, b, mode) =>
         {
             let (e, bundle, tok_id) = with_ctx(|x| {
